@@ -582,13 +582,20 @@ class ReparameterizedTimeTreeModel(TimeTreeModel, CallableModel):
             self._internal_heights.tensor, self._heights
         )
 
+    def _rebuild_transform(self) -> None:
+        # keep the parameterisation in force (ratios or height differences)
+        if isinstance(self.transform, DifferenceNodeHeightTransform):
+            self.transform = DifferenceNodeHeightTransform(self, self.transform.k)
+        else:
+            self.transform = GeneralNodeHeightTransform(self)
+
     def cuda(self, device: Optional[Union[int, torch.device]] = None) -> None:
         super().cuda(device)
-        self.transform = GeneralNodeHeightTransform(self)
+        self._rebuild_transform()
 
     def cpu(self) -> None:
         super().cpu()
-        self.transform = GeneralNodeHeightTransform(self)
+        self._rebuild_transform()
 
     @staticmethod
     def json_factory(
